@@ -49,6 +49,11 @@ def scenarios(tier):
     # every script ends with an unterminated line
     L.append((SC.scn("noisy-unterminated-last-line-j1", noisy_world(4), ["redo --no-color top"], visible=VIS, log_mode=True,
                      post_cmds=post, unterminated=True), 0 if q else 1))
+    # a partial line directly followed by a nested build; a line with a byte that is not UTF-8
+    L.append((SC.scn("noisy-partial-line-then-nested-build-j1", noisy_world(8), ["redo --no-color top"], visible=VIS, log_mode=True,
+                     post_cmds=post, extra_line=(7, "partial line before the dependencies:", ("top", "a", "b", "c"))), 0 if q else 1))
+    L.append((SC.scn("noisy-non-utf8-byte-j1", noisy_world(16), ["redo --no-color top"], visible=VIS, log_mode=True,
+                     post_cmds=post, extra_line=(8, "bad . byte", ("top", "a", "b", "c"))), 0 if q else 1))
     if not q:
         L.append((SC.scn("noisy-ifchange-j1", w, ["redo-ifchange top"], visible=VIS, log_mode=True, post_cmds=post), 2))
         L.append((SC.scn("noisy-record-like-line-j1", noisy_world(2), ["redo --no-color top"], visible=VIS, log_mode=True,
@@ -104,7 +109,7 @@ def judge_stream(name, pairs, targets, scn, out):
         if not m:
             continue
         t, seq, payload = m.group(1), int(m.group(2)), m.group(3)
-        if seq == 6:
+        if seq in (6, 7, 8):
             continue
         if t not in seen:
             out.append(({"kind": "log-line-for-unknown-target", "scenario": scn["name"], "stream": name}, {"line": line[:200]}))
@@ -125,8 +130,16 @@ def judge_stream(name, pairs, targets, scn, out):
             if n != 1:
                 out.append(({"kind": "unterminated-last-line-" + ("lost" if n == 0 else "duplicated"), "scenario": scn["name"],
                              "stream": name, "target": t}, {"count": n}))
+    if scn.get("extra_line"):
+        seq, pat, who = scn["extra_line"]
+        text = "\n".join(l for _c, l in pairs)
+        for t in who:
+            n = len(re.findall(r"L %s %d %s" % (re.escape(t), seq, pat), text))
+            if n != 1:
+                out.append(({"kind": "special-line-" + ("lost" if n == 0 else "duplicated"), "scenario": scn["name"],
+                             "stream": name, "target": t, "seq": seq}, {"count": n}))
     for t, seqs in seen.items():
-        seqs = [x for x in seqs if x != 6]
+        seqs = [x for x in seqs if x not in (6, 7, 8)]
         if seqs != ORDER:
             what = "missing" if len(seqs) < len(ORDER) else ("duplicated" if len(set(seqs)) < len(seqs) else "reordered")
             out.append(({"kind": "log-lines-" + what, "scenario": scn["name"], "stream": name, "target": t}, {"seqs": seqs}))
